@@ -46,6 +46,8 @@ where
     // The state of the inputs is captured before the script runs: a change made to an input while the
     // script is running has not been built, and must not be recorded as if it had.
     let input_state = TargetEnvState::current_input(target_input).await;
+    #[cfg(zinoma_verif)]
+    crate::verif::point("incr_captured", &target.id.to_string(), &[]).await;
 
     let build_report = future.await?;
     #[cfg(zinoma_verif)]
